@@ -1,7 +1,10 @@
 package rules
 
 import (
+	"go/ast"
+	"go/constant"
 	"go/token"
+	"strconv"
 	"strings"
 
 	"golang.org/x/tools/go/ssa"
@@ -476,4 +479,142 @@ func R11RedirProvenance(c *Ctx) {
 			}
 		}
 	}
+}
+
+// R11NoCarry — each configured header / URI is judged on its own.
+func R11NoCarry(c *Ctx) {
+	const rule = "R11-check-no-carry"
+	c.R.Rule(rule, "inside the loops of (*HTTP).request that test the configured headers and URIs, no branch condition depends on a value carried over from an earlier iteration of that loop (a loop-header phi other than the range counter, or an outer variable assigned in the loop): whether one configured header is checked must not depend on which headers came before it", 3)
+	fn := c.P.Func(PkgHandlers, "HTTP.request")
+	if fn == nil {
+		c.R.Anchor(rule, "handlers.(*HTTP).request")
+		return
+	}
+	loops := naturalLoops(fn)
+	n := 0
+	for _, b := range fn.Blocks {
+		if len(b.Instrs) == 0 {
+			continue
+		}
+		iff, ok := b.Instrs[len(b.Instrs)-1].(*ssa.If)
+		if !ok {
+			continue
+		}
+		for _, l := range loops {
+			if !l.body[b] || b == l.header {
+				continue
+			}
+			n++
+			pos := iff.Cond.Pos()
+			if !pos.IsValid() {
+				pos = fn.Pos()
+			}
+			if carried := carriedInto(iff.Cond, l); carried != nil {
+				c.R.Bad(rule, FuncShort(fn), "branch inside a check loop is iteration-local", c.pos(pos), "this test depends on "+DescribeValue(carried)+", which is carried over from earlier iterations of the loop: once it flips, the headers/URIs that follow are judged differently (e.g. never checked)")
+			} else {
+				c.R.Ok(rule, FuncShort(fn), "branch inside a check loop is iteration-local", c.pos(pos), "depends on the current element and loop-invariant values only", true)
+			}
+		}
+	}
+	if n == 0 {
+		c.R.Anchor(rule, "the check loops of (*HTTP).request")
+	}
+}
+
+// R11ListSeparator — the operator's list fields are cut the same way everywhere (sibling agreement).
+func R11ListSeparator(c *Ctx) {
+	const rule = "R11-list-separator"
+	c.R.Rule(rule, "every strings.Split of a list field of a listener message (pk.Body.Info[\"Hosts\"|\"Headers\"|\"Uris\"]) in DispatchEvent — the Add and the Edit branch — uses one and the same separator constant: the client joins these lists one way, so a branch that cuts differently configures different headers/URIs than the operator entered (a header value containing a comma is split in two)", 4)
+	fd, pk := c.P.FuncDecl(PkgServer, "Teamserver.DispatchEvent")
+	if fd == nil {
+		c.R.Anchor(rule, "server.(*Teamserver).DispatchEvent")
+		return
+	}
+	type site struct {
+		key, sep string
+		pos      token.Pos
+	}
+	var sites []site
+	ast.Inspect(fd.Body, func(n ast.Node) bool {
+		call, ok := n.(*ast.CallExpr)
+		if !ok || len(call.Args) != 2 {
+			return true
+		}
+		fn := Callee(pk.TypesInfo, call)
+		if fn == nil || fn.FullName() != "strings.Split" {
+			return true
+		}
+		// first argument: pk.Body.Info["K"].(string)
+		key := ""
+		ast.Inspect(call.Args[0], func(m ast.Node) bool {
+			if ix, ok := m.(*ast.IndexExpr); ok && strings.HasSuffix(ExprStr(ix.X), "Body.Info") {
+				if tv, ok := pk.TypesInfo.Types[ix.Index]; ok && tv.Value != nil {
+					key = constant.StringVal(tv.Value)
+				}
+			}
+			return true
+		})
+		if key == "" {
+			return true
+		}
+		sep := "<not constant>"
+		if tv, ok := pk.TypesInfo.Types[call.Args[1]]; ok && tv.Value != nil && tv.Value.Kind() == constant.String {
+			sep = constant.StringVal(tv.Value)
+		}
+		sites = append(sites, site{key, sep, call.Pos()})
+		return true
+	})
+	count := map[string]int{}
+	for _, s := range sites {
+		count[s.sep]++
+	}
+	major, best := "", 0
+	for s, n := range count {
+		if n > best {
+			major, best = s, n
+		}
+	}
+	fname := DeclShort(pk, fd)
+	for _, s := range sites {
+		construct := "Split(Info[" + strconv.Quote(s.key) + "], sep)"
+		if s.sep == major {
+			c.R.Ok(rule, fname, construct, c.pos(s.pos), "separator "+strconv.Quote(s.sep)+" like its siblings", true)
+		} else {
+			c.R.Bad(rule, fname, construct, c.pos(s.pos), "this list is cut at "+strconv.Quote(s.sep)+" while the other "+itoa(best)+" list fields are cut at "+strconv.Quote(major)+": the same operator input yields different configured values in this branch")
+		}
+	}
+}
+
+// R11ConfigVerbatim — the lists the admission checks compare with are the configured ones, unedited.
+func R11ConfigVerbatim(c *Ctx) {
+	const rule = "R11-config-verbatim"
+	c.R.Rule(rule, "no function rewrites an element of HTTPConfig.Uris / Headers / Hosts in place (a store through an index into one of these lists): what (*HTTP).request compares a request with is what the profile or the operator configured, not a normalised variant (a trailing-slash trim turns the URI \"/\" into \"\", which request() reads as 'no URI configured' and admits every path)", 1)
+	n := 0
+	for _, fn := range c.P.ModuleFuncs(NonYaotl) {
+		for _, b := range fn.Blocks {
+			for _, in := range b.Instrs {
+				st, ok := in.(*ssa.Store)
+				if !ok {
+					continue
+				}
+				ia, ok := st.Addr.(*ssa.IndexAddr)
+				if !ok {
+					continue
+				}
+				hit := ""
+				DerivesFromNarrow(ia.X, func(v ssa.Value) bool {
+					if t, f, _, ok := FieldOf(v); ok && t == PkgHandlers+".HTTPConfig" && (f == "Uris" || f == "Headers" || f == "Hosts") {
+						hit = f
+						return true
+					}
+					return false
+				})
+				if hit != "" {
+					n++
+					c.R.Bad(rule, FuncShort(fn), "HTTPConfig."+hit+"[i] = …", c.pos(st.Pos()), "an element of the configured "+hit+" list is rewritten in place: the admission checks no longer compare with what was configured")
+				}
+			}
+		}
+	}
+	c.R.Ok(rule, "-", "no in-place rewrite of configured lists", "-", "scanned every store through an index in the module: "+itoa(n)+" into HTTPConfig.Uris/Headers/Hosts", true)
 }
